@@ -125,6 +125,7 @@ def compare_outcome(f, args, real, tol=1e-9, margin_eps=1e-9):
         return 'mismatch', dict(ir=repr(val)[:200], real=repr(rv)[:200])
     if val is None: return 'ok', None
     if len(a) != len(b):
+        if margin < margin_eps: return 'boundary', None
         return 'mismatch', dict(ir=repr(val)[:200], real=repr(rv)[:200], why='shape')
     scale = max([1.0] + [abs(x) for x in a if isinstance(x, float) and x == x and abs(x) != float('inf')])
     for x, y in zip(a, b):
